@@ -205,6 +205,25 @@ def worker_main(args):
         json.dump(res, f)
 
 
+def digests_main(args):
+    """Determinism self-test helper: run seeds [lo, hi) and dump their digests."""
+    pid = args["property"]
+    mod = load_check(pid)
+    cfg = dict(mod.tier_cfg(args["tier"]))
+    cfg["tier"] = args["tier"]
+    cfg["hashseed"] = os.environ.get("PYTHONHASHSEED", "")
+    if hasattr(mod, "setup"):
+        mod.setup(cfg)
+    rows = []
+    for i in range(args["lo"], args["hi"]):
+        seed = derive_seed(args["base_seed"], pid, "det", i)
+        tape = Tape(seed)
+        out = run_tape(mod, cfg, tape)
+        rows.append([seed, out.status, out.oracle, out.digest, out.wdigest, len(tape.values)])
+    with open(args["out"], "w") as f:
+        json.dump(rows, f)
+
+
 def replay_main(args):
     """Re-execute a replay file; print one JSON line with what happened."""
     with open(args["replay"]) as f:
